@@ -27,7 +27,7 @@ func (s *c19sess) Mail(from string, o *MailOptions) error {
 }
 
 func TestBoundedC19(t *testing.T) {
-	res := &boundedResult{name: "line-limit-end-to-end", bound: "MAIL FROM:<a...a@b> lines of 1990..2010, 3000 and 5000 octets (limit 2000), sent in one segment, cut at 1000, at 1999/2000/2001 and octet by octet around the limit, alone and with a following NOOP in the same segment"}
+	res := &boundedResult{name: "line-limit-end-to-end", bound: "MAIL FROM:<a...a@b> lines of 1990..2010, 3000 and 5000 octets (limit 2000), sent in one segment, cut at 1000 and at 1998..2002, alone and with a following NOOP in the same segment; MAIL FROM:<a@b> padded with blanks to 2002, 2500 and 5000 octets, cut after the command, at 1000 and at 1999; a 3000-octet line in the segment of a BDAT command with a chunk of 0, 10 or 1995 octets, LAST or not"}
 	run := func(desc string, segs []string, lineLen int, addr string) {
 		res.n++
 		sc := &segConn{}
@@ -84,6 +84,50 @@ func TestBoundedC19(t *testing.T) {
 			for _, cut := range []int{1000, 1998, 1999, 2000, 2001, 2002} {
 				if cut < len(line) {
 					run(fmt.Sprintf("%s, cut at %d", name, cut), []string{pre, line[:cut], line[cut:] + tail}, lineLen, addr)
+				}
+			}
+		}
+	}
+	// a line whose head is a complete command and whose tail is padding: nothing of it may be served
+	for _, total := range []int{2002, 2500, 5000} {
+		for _, pad := range []string{" ", " X"} {
+			head := "MAIL FROM:<a@b>"
+			line := head + strings.Repeat(pad, (total-len(head)-2)/len(pad)+1)[:total-len(head)-2] + "\r\n"
+			name := fmt.Sprintf("padded line of %d octets (padding %q)", len(line), pad)
+			run(name+", one segment", []string{"EHLO c\r\n", line}, len(line), "a@b")
+			for _, cut := range []int{len(head), 1000, 1999} {
+				run(fmt.Sprintf("%s, cut at %d", name, cut), []string{"EHLO c\r\n", line[:cut], line[cut:]}, len(line), "a@b")
+			}
+		}
+	}
+	// an over-long line in the segment of a BDAT command and its chunk (the limit is lifted for the chunk)
+	for _, chunk := range []string{"", "0123456789", strings.Repeat("x", 1995)} {
+		for _, lastTok := range []string{" LAST", ""} {
+			long := "MAIL FROM:<" + strings.Repeat("a", 3000) + "@b>\r\n"
+			pre := "EHLO c\r\nMAIL FROM:<s@t>\r\nRCPT TO:<u@v>\r\n"
+			bdat := fmt.Sprintf("BDAT %d%s\r\n%s", len(chunk), lastTok, chunk)
+			if lastTok == "" {
+				bdat += "RSET\r\n"
+			}
+			name := fmt.Sprintf("over-long line behind BDAT %d%s", len(chunk), lastTok)
+			res.n++
+			sc := &segConn{segs: [][]byte{[]byte(pre), []byte(bdat + long)}}
+			var logBuf bytes.Buffer
+			be := &c19be{}
+			srv := NewServer(be)
+			srv.Domain = "x"
+			srv.ErrorLog = log.New(&logBuf, "", 0)
+			done := make(chan struct{})
+			go func() { defer close(done); srv.handleConn(newConn(sc, srv)) }()
+			select {
+			case <-done:
+			case <-time.After(3 * time.Second):
+				res.fail(name, "the connection handler did not finish within 3 s")
+				continue
+			}
+			for _, m := range be.mails {
+				if len(m) > 2000 {
+					res.fail(name, fmt.Sprintf("a line of %d octets read ahead with the chunk reached the backend: Mail(%.20q...)", len(long), m))
 				}
 			}
 		}
